@@ -185,10 +185,7 @@ def build(vk, p, tmpdir=None):
             if p.get("shuffle_rows") and kind not in ORDER_SENSITIVE:
                 random.Random(f"{p['seed']}/rows/{tag}").shuffle(ks)
             return ks
-        # (the inner dicts of pref_intervals_by_bloc stay in bloc order: CambridgeSampler pairs `.values()` of that dict
-        # with (cohesion, 1 - cohesion) positionally - see DESIGN.md section 11 - which changes the recorded calls, not
-        # the law of the ballots)
-        pib = {b: {s: PreferenceInterval(interval_dict(b, s)) for s in p["blocs"]} for b in order("pi")}
+        pib = {b: {s: PreferenceInterval(interval_dict(b, s)) for s in order(f"pi/{b}")} for b in order("pi")}
         # bloc_voter_prop and slate_to_candidates are built in the order of p["blocs"] (the order in which the generators
         # go through blocs and slates), so a case replays identically after a JSON round trip
         kw = dict(slate_to_candidates={b: list(p["slates"][b]) for b in p["blocs"]}, pref_intervals_by_bloc=pib,
